@@ -27,9 +27,11 @@ VECTORS = [[0, 1, 2], [0, 1, 5000], [0, 4095, 4096], [3, 4097, 65536], [0, 65535
 
 def variants(proto, thorough):
     v = []
+    # quick: the identity embedding plus two others that rotate with VERIF_SEED (all seven in the thorough tier)
+    rot = [VECTORS[1 + (seed() + k) % (len(VECTORS) - 1)] for k in (0, 3)]
     for c in VECTORS:
         for twin in ["dense", "sparse", "s2d"]:
-            if not thorough and proto == "A" and c != VECTORS[0]:
+            if not thorough and ((proto == "A" and c != VECTORS[0]) or (proto == "none" and c != VECTORS[0] and c not in rot)):
                 continue
             v.append((c, twin, 0))
     v.append(([1200, 1300, 1400], "s2dlive", 1100))      # the first new element switches sparse -> dense
